@@ -301,3 +301,38 @@ package gortsplib
 //@   ensures[C10] credprov(req) ==> err != nil
 //@   ensures[C10] !credprov(req) ==> err == nil && has(res.Header, "WWW-Authenticate")
 //@   modifies *
+
+// --- C14: delivery wiring --------------------------------------------------------------------
+// Every packet the reorder buffer releases is handed to the application callback, one call per
+// packet: the loss counter of ProcessPacket2 describes exactly the packets delivered, nothing is
+// filtered out after the sequence numbers have been accounted for.
+//@ func (ssf *serverSessionFormat) readPacketRTP
+//@   opt inline=0
+//@   assert[C14]@return calls(ProcessPacket2) == 1 && calls(onPacketRTP) == len(pkts)
+//@   modifies *
+//@   loop 1
+//@     invariant calls(onPacketRTP) == _i && calls(ProcessPacket2) == 1 && 0 <= _i && _i <= len(pkts)
+//@ func (cf *clientFormat) readPacketRTP
+//@   opt inline=0
+//@   assert[C14]@return calls(ProcessPacket2) == 1 && calls(onPacketRTP) == len(pkts)
+//@   modifies *
+//@   loop 1
+//@     invariant calls(onPacketRTP) == _i && calls(ProcessPacket2) == 1 && 0 <= _i && _i <= len(pkts)
+
+// The receiver reorders and drops duplicates exactly when the media arrives over UDP (unicast or
+// multicast) - whether or not there is an address to send RTCP reports to - and never over TCP.
+//@ func (cf *clientFormat) initialize
+//@   opt inline=0
+//@   assert[C14]@store:UnrealiableTransport arg(0) == (cf.cm.udpRTPListener != nil)
+//@   modifies *
+// (The server-side twin, serverSessionFormat.initialize, keeps the flag in a local that its RTCP
+// closure captures; the engine forgets captured locals at every call, so that assertion is not made.)
+
+// --- C02: a connection follows its session -------------------------------------------------------
+// After a request was handled by a session, the connection points at what the session handler
+// returned: the same session, or none once the session ended (TEARDOWN) - it never keeps a session
+// that has ended.
+//@ func (sc *ServerConn) handleRequestInSession
+//@   opt inline=0
+//@   assert[C02]@return calls(handleRequest) == 1 ==> sc.session == session
+//@   modifies *
